@@ -137,6 +137,20 @@ func c15MsgCheck(t vh.Fataler, rec *vh.Rec, c c15MsgCase) {
 	t.Helper()
 	m, ok, overflow := c15Build(c)
 	if !ok {
+		// the generator only builds names that are valid on the wire: a refusal is NewName rejecting
+		// a representable value (the names sub-check owns the boundary cases)
+		for _, sec := range [][]c15RR{c.Q, c.An, c.Ns, c.Ar} {
+			for _, r := range sec {
+				if v, _ := c15RefValid(r.Name); !v {
+					continue
+				}
+				if _, err := NewName(c15Labels(r.Name)); err != nil {
+					rec.Case(true, vh.Digest(c), c, "VALID-NAME-REJECTED")
+					rec.Violation(t, "dns:name:valid-rejected", c, "NewName rejects a name that is valid on the wire (%d labels, %d octets <= 255, %d bytes outside [0-9A-Za-z-]): %v", len(r.Name), c15RefOctets(r.Name), c15Escapes(r.Name), err)
+					return
+				}
+			}
+		}
 		rec.Case(false, vh.Digest(c), nil, "name-refused")
 		return
 	}
